@@ -35,11 +35,30 @@ def collect(ctx, n_hosts):
             hosts.append(h)
             for rule, q, kw in mutants.reply_mutants(rng, h):
                 muts.append((f"h{i:03d}_{rule}".replace("-", "_"), rule, "c", q, kw))
+    # entry points of generic contracts need one concrete type per type parameter
+    for i in range(max(2, n_hosts // 4)):
+        rng = ctx.rng("c18g", i)
+        h = spec.gen_generic_program(rng, f"hg{i:03d}", n_generics=rng.choice([1, 2, 3]))
+        hosts.append(h)
+        import copy
+        q = copy.deepcopy(h)
+        gs = [g["concrete"] for g in h["generics"]]
+        q["entry_points_args"] = ("generics<" + ", ".join(gs[:-1]) + ">") if len(gs) > 1 else ""
+        muts.append((f"hg{i:03d}_ep_too_few_generics", "entry-points-too-few-generics", "ep", q, ["Missing concrete types"]))
+        q = copy.deepcopy(h)
+        q["entry_points_args"] = "generics<" + ", ".join(gs + ["u8"]) + ">"
+        muts.append((f"hg{i:03d}_ep_too_many_generics", "entry-points-too-many-generics", "ep", q, ["Missing concrete types"]))
     return hosts, muts
 
 
 def job_for(jid, prog, target):
     R = render.R(prog)
+    if target == "ep":
+        R.contract_src()
+        first = R.contract_src()[1] if prog.get("generics") else ""
+        import re
+        m = re.search(r"entry_points\((.*)\)\]$", first)
+        return (jid, "entry_points", m.group(1) if m else None, R.contract_item(True), False)
     if target == "c":
         return (jid, "contract", None, R.contract_item(), False)
     return (jid, "interface", None, R.iface_item(spec.part_by_id(prog, target)), False)
@@ -133,7 +152,7 @@ def run(ctx):
     for jid, rule, target, q, kw in chosen:
         R = render.R(q)
         src = R.source(with_glue=False)
-        item = R._contract_item if target == "c" else R._iface_items[target]
+        item = R._contract_item if target in ("c", "ep") else R._iface_items[target]
         mods[jid] = src
         meta[jid] = ("mutant", rule, kw, item_range(src, item))
     for h in hosts[:ctx.pick(6, 40)]:
